@@ -6,6 +6,7 @@ package main
 import (
 	"fmt"
 	"go/types"
+	"math"
 	"strings"
 
 	"golang.org/x/tools/go/ssa"
@@ -67,6 +68,24 @@ func cint(c *intrCtx, i int) int64 {
 		c.r.fail("harness API: argument must be a concrete integer")
 	}
 	return sext(t.c, t.sort.W)
+}
+
+// clockReading: the next reading of the monotonic clock, in ns - arbitrary, not before the last one.
+func (r *Run) clockReading() *Term {
+	if tick := r.eng.cfg.ClockTickNs; tick > 0 {
+		// (scale runs: a concrete clock that advances by a fixed amount per reading)
+		r.clockN++
+		return r.tt.Int(64, r.clockN*tick)
+	}
+	m := r.freshInput("time.Now", BV(64), "int64")
+	lo := r.lastNow
+	if lo == nil {
+		lo = r.tt.Int(64, 0)
+	}
+	r.assume(r.tt.CmpBV(OpSle, lo, m))
+	r.assume(r.tt.CmpBV(OpSle, m, r.tt.Int(64, 1<<61)))
+	r.lastNow = m
+	return m
 }
 
 func (r *Run) freshInput(name string, s Sort, kind string) *Term {
@@ -860,6 +879,17 @@ func init() {
 		r.multi = true
 		return invDone, ch
 	}
+	// ---- math: the architecture-specific kernels have no Go body; fold them on constants ----
+	for name, f := range map[string]func(float64) float64{"math.archFloor": math.Floor, "math.archCeil": math.Ceil, "math.archTrunc": math.Trunc, "math.archSqrt": math.Sqrt} {
+		name, f := name, f
+		stubs[name] = func(c *intrCtx) (invResult, Value) {
+			x, ok := c.args[0].(*Term)
+			if !ok || !x.IsConst() {
+				c.r.fail(name + " of a symbolic argument is not modelled")
+			}
+			return invDone, c.r.tt.FConst(64, f(ffrom(64, x.c)))
+		}
+	}
 	stubs["runtime.Gosched"] = func(c *intrCtx) (invResult, Value) {
 		if !c.r.syncPoint(c.t, &pendOp{kind: "Gosched"}) {
 			return invYield, nil
@@ -876,13 +906,51 @@ func init() {
 		return invDone, ch
 	}
 	stubs["time.Now"] = func(c *intrCtx) (invResult, Value) {
-		return invDone, c.r.zero(c.fn.Signature.Results().At(0).Type())
+		// The clock is part of the environment: every reading is an arbitrary instant not before
+		// the previous one. The Time carries a monotonic reading (wall = hasMonotonic, ext = the
+		// reading in ns), which is what Before/After/Sub/Add/Since work on; its wall-clock part is
+		// fixed (formatting the time is not modelled).
+		r := c.r
+		z, ok := r.zero(c.fn.Signature.Results().At(0).Type()).(StructVal)
+		if !ok || len(z.f) != 3 {
+			return invDone, r.zero(c.fn.Signature.Results().At(0).Type())
+		}
+		m := r.clockReading()
+		f := append([]Value(nil), z.f...)
+		f[0] = r.tt.Const(BV(64), 1<<63)
+		f[1] = m
+		return invDone, StructVal{f}
+	}
+	stubs["time.runtimeNano"] = func(c *intrCtx) (invResult, Value) {
+		return invDone, c.r.clockReading() // (time.startNano is 0: package initialisers do not run)
+	}
+	// Since / Until of a Time that carries a monotonic reading (every Time derived from time.Now
+	// does): the difference to a new reading of the clock. Other Times: an arbitrary duration.
+	monoOf := func(v Value) *Term {
+		sv, ok := v.(StructVal)
+		if !ok || len(sv.f) != 3 {
+			return nil
+		}
+		w, ok := sv.f[0].(*Term)
+		if !ok || !w.IsConst() || w.c>>63 == 0 {
+			return nil
+		}
+		e, _ := sv.f[1].(*Term)
+		return e
 	}
 	stubs["time.Since"] = func(c *intrCtx) (invResult, Value) {
-		// an arbitrary non-negative duration
+		if e := monoOf(c.args[0]); e != nil {
+			return invDone, c.r.tt.BinBV(OpSub, c.r.clockReading(), e)
+		}
 		d := c.r.freshInput("time.Since", BV(64), "int64")
 		c.r.assume(c.r.tt.CmpBV(OpSle, c.r.tt.Int(64, 0), d))
 		return invDone, d
+	}
+	stubs["time.Until"] = func(c *intrCtx) (invResult, Value) {
+		if e := monoOf(c.args[0]); e != nil {
+			return invDone, c.r.tt.BinBV(OpSub, e, c.r.clockReading())
+		}
+		return invDone, c.r.freshInput("time.Until", BV(64), "int64")
 	}
 	// ---- reflection-based sort entry points: run the real algorithm with an engine swapper ----
 	stubs["sort.SliceStable"] = func(c *intrCtx) (invResult, Value) {
